@@ -85,8 +85,8 @@ def _solve_one(idx):
     cross = _CFG.get("cross")
     answers = {}
 
-    def run_z3(fs, tag=""):
-        s, r = _z3_check(fs, timeout, seed)
+    def run_z3(fs, tag="", tmo=None):
+        s, r = _z3_check(fs, tmo or timeout, seed)
         if r == z3.unsat:
             answers["z3" + tag] = "unsat"
             return "unsat", s
@@ -96,11 +96,11 @@ def _solve_one(idx):
         res["detail"] += f" z3{tag}:{s.reason_unknown()}"
         return "unknown", s
 
-    def run_cvc5(fs, tag=""):
+    def run_cvc5(fs, tag="", tmo=None):
         s = z3.Solver()
         for f in fs:
             s.add(f)
-        c, err = _run_cvc5(s.to_smt2(), timeout)
+        c, err = _run_cvc5(s.to_smt2(), tmo or timeout)
         answers["cvc5" + tag] = c
         return c
 
@@ -118,15 +118,18 @@ def _solve_one(idx):
     for sv in order:
         if res["status"] != "unknown" and not cross:
             break
+        # cross-checking (thorough tier): once one solver has decided, the other gets a short budget -- enough to expose a
+        # disagreement (sat vs unsat), not a second full attempt
+        short = 2 if res["status"] != "unknown" else None
         if sv == "z3":
-            r, s = run_z3(forms)
+            r, s = run_z3(forms, tmo=short)
             if r != "unknown" and res["status"] == "unknown":
                 res.update(status=r, solver="z3-5.1")
                 if r == "sat":
                     decode(s)
         else:
             try:
-                r = run_cvc5(forms)
+                r = run_cvc5(forms, tmo=short)
             except Exception as e:
                 res["detail"] += f" cvc5 failed: {e}"
                 r = "unknown"
